@@ -8,6 +8,7 @@
      failed t  : t with state FAILED and an exception detail naming t's pilot. *)
 From Coq Require Import ZArith List Bool.
 From RP Require Import Gen.StatesTables PilotDeath.Model PilotDeath.Oracle PilotDeath.Proofs.
+From RP Require States.Model States.Inst States.PilotEnd.
 Import ListNotations.
 Open Scope Z_scope.
 
@@ -100,3 +101,22 @@ Example C13_nonvacuous :
         mkT 3 T_AGENT_EXECUTING (Some 3) None; mkT 4 T_CANCELED (Some 2) None;
         mkT 5 T_TMGR_SCHEDULING None None]) ].
 Proof. vm_compute. reflexivity. Qed.
+
+(* ---- the pilot's end reaches the task manager ----
+   The task manager's callback (above) runs when the PILOT OBJECT changes
+   state: the chain is pmgr notification -> PilotManager._update_pilot ->
+   Pilot._update -> pilot callbacks -> TaskManager._pilot_state_cb.  Model of
+   the first three links: RP.States (subject of C14).  What C13 needs from it:
+   a final notification for a pilot that is not final yet makes Pilot.state that
+   final state, raises nothing and ends the callback sequence with it --
+   whatever state the client still had the pilot in (a very short pilot, a
+   missed activation notice). *)
+Module PilotSide.
+Import RP.States.Model RP.States.Inst RP.States.PilotEnd.
+Theorem C13_pilot_end_is_observed :
+  forall cur tgt : pstate,
+    p_is_final cur = false -> p_is_final tgt = true ->
+    exists cbs, p_notify cur tgt = (tgt, cbs ++ [tgt], None).
+Proof. exact pilot_end_is_observed. Qed.
+Print Assumptions C13_pilot_end_is_observed.
+End PilotSide.
